@@ -67,6 +67,9 @@ package shell_operator
 //@ ghost nUpdateMeta int
 //@ ghost lastMeta interface{}
 //@ ghost nUnlock int
+// the monitor ids handed to UnlockKubernetesEventsFor, in call order; calls of the unlock-everything variant
+//@ ghost unlockIds map[int]string
+//@ ghost nUnlockAll int
 //@ ghost gotMeta interface{}
 // The metadata of a task as a function of the task and of the number of UpdateMetadata calls so far.
 //@ ghost metaEpoch int
@@ -391,8 +394,12 @@ package shell_operator
 //@   ensures result != nil && result.Config != nil && result.HookController != nil && result.RateLimiter != nil && (result.Config.Version == "v0" || result.Config.Version == "v1")
 //@ package github.com/flant/shell-operator/pkg/hook/controller
 //@ trusted func (*HookController).UnlockKubernetesEventsFor
-//@   modifies shell_operator.nUnlock
+//@   modifies shell_operator.nUnlock, shell_operator.unlockIds
 //@   ghostset shell_operator.nUnlock := shell_operator.nUnlock + 1
+//@   ghostset shell_operator.unlockIds[shell_operator.nUnlock] := monitorID
+//@ trusted func (*HookController).UnlockKubernetesEvents
+//@   modifies shell_operator.nUnlockAll
+//@   ghostset shell_operator.nUnlockAll := shell_operator.nUnlockAll + 1
 //@ package github.com/flant/shell-operator/pkg/utils/measure
 //@ trusted func Duration
 //@   modifies nothing
@@ -403,9 +410,9 @@ package shell_operator
 // rate-limit wait of the same hook. C01/C06: monitors are unlocked only after a successful
 // Synchronization.
 //@ func (*ShellOperator).taskHandleHookRun
-//@   prop C04, C18, C14
+//@   prop C04, C18, C14, C06
 //@   requires op.HookManager != nil && op.TaskQueues != nil && t != nil
-//@   modifies hook.nRun, hook.ranContexts, ranErr, nCombine, lastCombine, allMergedAllowFailure, nUpdateMeta, lastMeta, nUnlock, hook.lastWaitHook, hook.lastWaitErr, hook.lastHookResult, hook.lastHookErr, nSetAdm, lastAdmProp, nSend, lastSendErr, objectpatch.nPatchExec, objectpatch.nExec, objectpatch.execOp, objectpatch.execErr, objectpatch.lastSpecs, objectpatch.lastDecodeErr, gotMeta, metaEpoch, rate.lastWaitLimiter, rate.lastLimiterErr
+//@   modifies hook.nRun, hook.ranContexts, ranErr, nCombine, lastCombine, allMergedAllowFailure, nUpdateMeta, lastMeta, nUnlock, unlockIds, nUnlockAll, hook.lastWaitHook, hook.lastWaitErr, hook.lastHookResult, hook.lastHookErr, nSetAdm, lastAdmProp, nSend, lastSendErr, objectpatch.nPatchExec, objectpatch.nExec, objectpatch.execOp, objectpatch.execErr, objectpatch.lastSpecs, objectpatch.lastDecodeErr, gotMeta, metaEpoch, rate.lastWaitLimiter, rate.lastLimiterErr
 //@   requires [ghost-wf] hook.nProcess >= 0 && !hook.fsExists[""]
 //@   modifies bindingcontext.lastConvIn, bindingcontext.lastConvVersion, bindingcontext.lastConvOut, controller.lastRefreshIn, controller.lastRefreshOut, controller.snapCount, controller.snapOf, hook.fsExists, hook.ctxFileContent, hook.nProcess, hook.lastExitErr, hook.nOutputsRead
 //@   modifies seenItems, filterItems, mergedTasks, mergedSeq, lastCombined, nMerged, all(queue.TaskQueue.items), all(queue.TaskQueue.measureActionFn), queue.nMut, allelems(string)
@@ -423,9 +430,15 @@ package shell_operator
 //@   ensures [response-needs-success] nSetAdm > old(nSetAdm) ==> ranErr == nil && hook.nRun == old(hook.nRun) + 1
 //@   ensures [allow-merged @C04]    hook.nRun == old(hook.nRun) + 1 && ranErr != nil && result.Status == "Success" && nCombine == old(nCombine) + 1 && lastCombine != nil ==> allMergedAllowFailure
 //@   ensures [unlock-after-success] nUnlock > old(nUnlock) ==> result.Status == "Success"
+//@   ensures [unlock-only-own-monitors @C06] nUnlockAll == old(nUnlockAll) && (nUnlock == old(nUnlock) || (nUpdateMeta > old(nUpdateMeta) && nUnlock == old(nUnlock) + len(lastMeta.(task_metadata.HookMetadata).MonitorIDs)
+//@        && forall(k, old(nUnlock), nUnlock, unlockIds[k] == lastMeta.(task_metadata.HookMetadata).MonitorIDs[k - old(nUnlock)]))
+//@        || (nUpdateMeta == old(nUpdateMeta) && nUnlock == old(nUnlock) + len(metaOf(t, ep0).(task_metadata.HookMetadata).MonitorIDs)
+//@        && forall(k, old(nUnlock), nUnlock, unlockIds[k] == metaOf(t, ep0).(task_metadata.HookMetadata).MonitorIDs[k - old(nUnlock)])))
 //@   ensures [no-extra-tasks]       len(result.HeadTasks) == 0 && len(result.TailTasks) == 0 && len(result.AfterTasks) == 0
 //@   loop 1
 //@     invariant nUnlock >= old(nUnlock) && res.Status == "Success"
+//@     invariant 0 <= iter() && iter() <= len(hookMeta.MonitorIDs) && nUnlock == old(nUnlock) + iter() && nUnlockAll == old(nUnlockAll)
+//@     invariant forall(k, old(nUnlock), nUnlock, unlockIds[k] == hookMeta.MonitorIDs[k - old(nUnlock)])
 
 // ---- C14: the admission event handler installed by the operator fails closed -----------------
 //@ package github.com/flant/shell-operator/pkg/hook
